@@ -19,8 +19,8 @@ from contracts.ctrl import LinearSpaceTransfer
 BT = 'pySDC/core/base_transfer.py'
 
 
-def two_level_step(mk, Mf, Mc, tau_fine=False, finter=False, rowsum_one=False):
-    S = make_step(mk, nlevels=2, Ms=[Mf, Mc], space_transfer=LinearSpaceTransfer, base_transfer_params=dict(finter=finter))
+def two_level_step(mk, Mf, Mc, tau_fine=False, finter=False, rowsum_one=False, bt_class=None, space_transfer=None):
+    S = make_step(mk, nlevels=2, Ms=[Mf, Mc], space_transfer=space_transfer or LinearSpaceTransfer, base_transfer_params=dict(finter=finter), base_transfer_class=bt_class)
     F, G = S.levels
     bt = S.base_transfer
     R = mk.matrix('Rcoll', Mc, Mf)
@@ -51,6 +51,9 @@ def Ps(bt, x):
 class _TB(Contract):
     prop = 'C10'
     label = 'instance-proved'
+
+    def bt_class(self):
+        return None
     stubs = ('space_transfer.restrict / prolong [linear uninterpreted maps; linearity = C11 contract]',
              'sweeper.integrate [C02 contract: dt*Q*F as new values]',
              'Problem.eval_f [C12 contract: uninterpreted map, arguments unchanged]')
@@ -148,7 +151,7 @@ class Prolong(_TB):
         return out
 
     def build(self, inst, mk):
-        S, F, G, bt = two_level_step(mk, inst['Mf'], inst['Mc'], tau_fine=True, finter=(self.fn == 'prolong_f'))
+        S, F, G, bt = two_level_step(mk, inst['Mf'], inst['Mc'], tau_fine=True, finter=(self.fn == 'prolong_f'), bt_class=self.bt_class())
         Mc = inst['Mc']
         for m in range(Mc + 1):
             G.u[m] = mk.vec(f'G.u{m}')
@@ -276,7 +279,109 @@ def _stage_order_contracts():
     return [type(b.__name__ + '_C10', (b,), dict(prop='C10')) for b in (ItDown, ItCoarse, ItUp)]
 
 
-CONTRACTS = [Restrict, Prolong, ProlongF, CycleFixedPoint] + _stage_order_contracts()
+
+# ------------------------------------------------------------------------------------------ mass-matrix flavour (finite elements)
+BTM = 'pySDC/implementations/transfer_classes/BaseTransfer_mass.py'
+
+
+class MassSpaceTransfer(LinearSpaceTransfer):
+    """adds the third linear map of the finite-element transfers: project (for values), restrict is for residual-like data"""
+
+    def project(self, F):
+        if isinstance(F, Vec):
+            return Vec({f'Pi[{a}]': c for a, c in F.c.items()}, kind=F.kind)
+        import numpy as np
+
+        out = type(F)(F)
+        out[...] = 0.6 * np.asarray(F) + 0.15 * np.roll(np.asarray(F), -1, axis=-1)
+        return out
+
+
+def _mass_bt():
+    from pySDC.implementations.transfer_classes.BaseTransfer_mass import base_transfer_mass
+
+    return base_transfer_mass
+
+
+class MassRestrict(_TB):
+    """base_transfer_mass.restrict: coarse values are PROJECTED fine values, the FAS correction is built from mass-weighted defects
+        tau_c[n] = M_c u_c[n] - dt (Q_c F_c)[n] - sum_m Rcoll[n,m] R( M_f u_f[m] - dt (Q_f F_f)[m] ) (+ sum_m Rcoll[n,m] R tau_f[m])
+    and the coarse start value becomes R(M_f u_f[0]) on the finest level; consequence (rows of Rcoll sum to one): the coarse
+    mass-weighted defect equals the restricted fine mass-weighted defect"""
+
+    name = 'base_transfer_mass.restrict'
+    target = (BTM, 'base_transfer_mass.restrict')
+    stubs = _TB.stubs + ('Problem.apply_mass_matrix [linear uninterpreted map]', 'space_transfer.project [linear uninterpreted map]')
+
+    def instances(self, tier):
+        return [dict(Mf=a, Mc=b, tau=t) for a, b in self.pairs(tier) for t in (False, True)]
+
+    def build(self, inst, mk):
+        S, F, G, bt = two_level_step(mk, inst['Mf'], inst['Mc'], tau_fine=inst['tau'], rowsum_one=True, bt_class=_mass_bt(), space_transfer=MassSpaceTransfer)
+        stub_integrate(F)
+        stub_integrate(G)
+        st = State(S=S, F=F, G=G, bt=bt, inst=inst, call=bt.restrict)
+        return st
+
+    def snapshot(self, st):
+        return snapshot({'S': st.S})
+
+    def post(self, st, old, result, exc):
+        F, G, bt, inst = st.F, st.G, st.bt, st.inst
+        Mf, Mc = inst['Mf'], inst['Mc']
+        yield 'returns_normally', exc is None
+        if exc is not None:
+            return
+        R, sp = bt.Rcoll, bt.space_transfer
+        MF, MG = F.prob.apply_mass_matrix, G.prob.apply_mass_matrix
+        u0_proj = sp.project(F.u[0])
+        for n in range(1, Mc + 1):
+            yield f'u{n}:Rcoll_times_projected_fine_nodes', veq(G.u[n], vsum(R[n - 1, m] * sp.project(F.u[m + 1]) for m in range(Mf)))
+        yield 'u0:restricted_mass_weighted_fine_start_value', veq(G.u[0], sp.restrict(MF(F.u[0])))
+        PG = G.prob
+        er0 = PG.find_eval(G.f[0])
+        yield 'f0:coarse_rhs_of_projected_start_value', er0 is not None and bool(veq(er0.u, u0_proj)) is True and bool(seq(er0.t, G.time)) is True
+        for n in range(1, Mc + 1):
+            er = PG.find_eval(G.f[n])
+            yield f'f{n}:coarse_rhs_of_coarse_value_at_coarse_node_time', er is not None and bool(veq(er.u, G.u[n])) is True and bool(seq(er.t, G.time + G.dt * G.sweep.coll.nodes[n - 1])) is True
+        IF, IG = spec_integrate(F), spec_integrate(G)
+        for n in range(Mc):
+            exp = MG(G.u[n + 1]) - IG[n] - vsum(R[n, m] * sp.restrict(MF(F.u[m + 1]) - IF[m]) for m in range(Mf))
+            if inst['tau']:
+                exp = exp + vsum(R[n, m] * sp.restrict(F.tau[m]) for m in range(Mf))
+            yield f'tau{n}:FAS_correction_with_mass_matrices', veq(G.tau[n], exp)
+            cdef = G.u[0] + IG[n] + G.tau[n] - MG(G.u[n + 1])
+            fdef = [MF(F.u[0]) + IF[m] - MF(F.u[m + 1]) + (F.tau[m] if inst['tau'] else 0) for m in range(Mf)]
+            yield f'coarse_defect_is_restricted_fine_defect[{n}]', veq(cdef, vsum(R[n, m] * sp.restrict(fdef[m]) for m in range(Mf)))
+        for n in range(1, Mc + 1):
+            yield f'uold{n}:copy', bool(veq(G.uold[n], G.u[n])) is True and G.uold[n] is not G.u[n]
+            yield f'fold{n}:copy', bool(veq(G.fold[n], G.f[n])) is True and G.fold[n] is not G.f[n]
+        yield 'coarse_unlocked', G.status.unlocked is True
+        yield from frame_clauses(old, snapshot({'S': st.S}), frame=['S.levels[1].u', 'S.levels[1].f', 'S.levels[1].tau', 'S.levels[1].uold', 'S.levels[1].fold',
+                                                                    'S.levels[1].status.unlocked', 'S.levels[1].prob', 'S.levels[0].prob', 'S.levels[0].sweep.integrate', 'S.levels[1].sweep.integrate'])
+
+    def canary(self, st, old, result, exc):
+        G, F, bt = st.G, st.F, st.bt
+        yield 'canary:start_value_is_the_projection', veq(G.u[0], bt.space_transfer.project(F.u[0]))
+
+
+class MassProlong(Prolong):
+    name = 'base_transfer_mass.prolong'
+    target = (BTM, 'base_transfer_mass.prolong')
+
+    def bt_class(self):
+        return _mass_bt()
+
+
+class MassProlongF(ProlongF):
+    name = 'base_transfer_mass.prolong_f'
+    target = (BTM, 'base_transfer_mass.prolong_f')
+
+    def bt_class(self):
+        return _mass_bt()
+
+
+CONTRACTS = [Restrict, Prolong, ProlongF, CycleFixedPoint, MassRestrict, MassProlong, MassProlongF] + _stage_order_contracts()
 UNDECIDED = ['multigrid iteration-matrix clause (one multilevel iteration = multigrid-in-time matrix) is not machine-checked',
              'BaseTransfer_mass, BaseTransferMPI and three-level cycles are not under contract',
              'concrete space transfer classes (mesh_to_mesh, FFT) enter only through their linearity (C11)']
